@@ -2,6 +2,8 @@ pub mod c01;
 pub mod c02;
 pub mod c04;
 pub mod c05;
+pub mod c06;
+pub mod c07;
 pub mod c08;
 pub mod c13;
 pub mod c20;
@@ -15,6 +17,8 @@ pub fn lookup(id: &str) -> Option<Arc<dyn Prop>> {
         "C02" => Arc::new(c02::C02),
         "C05" => Arc::new(c05::C05),
         "C04" => Arc::new(c04::C04),
+        "C06" => Arc::new(c06::C06),
+        "C07" => Arc::new(c07::C07),
         "C08" => Arc::new(c08::C08),
         "C13" => Arc::new(c13::C13),
         "C20" => Arc::new(c20::C20),
